@@ -26,9 +26,13 @@ class TermPeerWorld(PeerWorld):
     one of these can happen before, between and after the segments.'''
 
     def __init__(self, params):
-        prm = dict(role=params.get('role', 'passive'), seg_mru=4, tx_init=4, queued=tuple(params['bundles']), max_quiesce=400)
+        prm = dict(role=params.get('role', 'passive'), seg_mru=4, tx_init=4, queued=tuple(params['bundles']), max_quiesce=400,
+                   chunk=params.get('chunk', 10240))
         self.opts = dict(refuse=params.get('refuse', False), user_term=params.get('user_term', True),
-                         peer_term=params.get('peer_term', True))
+                         peer_term=params.get('peer_term', True), stray=params.get('stray'))
+        self.prop = params.get('prop', PROP)
+        self.sent_data = {}        # transfer id -> data octets of the segments R wrote
+        self.malformed = None
         self.parser = T.StreamParser()
         self.parsed = 0
         self.outstanding = []      # (transfer id, cumulative length, flags) written by R, not acknowledged
@@ -36,7 +40,7 @@ class TermPeerWorld(PeerWorld):
         self.refused = set()
         self.started = []          # transfer ids whose START segment R wrote
         self.r_term_seen = 0       # SESS_TERM messages R wrote
-        self.done = dict(user_term=False, peer_term=False, refuse=False)
+        self.done = dict(user_term=False, peer_term=False, refuse=False, stray=False)
         self.start_after_term = False
         PeerWorld.__init__(self, prm)
         # establish the session (R runs to quiescence; its queued bundles may start)
@@ -53,8 +57,11 @@ class TermPeerWorld(PeerWorld):
 
     def absorb(self):
         for msg in self.parser.feed(self.out_octets[self.parsed:]):
+            if msg['kind'] == 'MALFORMED' and self.malformed is None:
+                self.malformed = msg.get('text', 'undecodable')
             if msg['kind'] == 'XFER_SEGMENT':
                 tid = msg['transfer_id']
+                self.sent_data[tid] = self.sent_data.get(tid, b'') + bytes(msg['data'])
                 if msg['flags'] & 2:
                     self.started.append(tid)
                     if self.r_term_seen:
@@ -84,6 +91,8 @@ class TermPeerWorld(PeerWorld):
             events.append(('peer', 'ack-next'))
         if self.opts['refuse'] and not self.done['refuse'] and self.started:
             events.append(('peer', 'refuse'))
+        if self.opts['stray'] and not self.done['stray'] and self.established():
+            events.append(('peer', 'stray'))
         return events
 
     def is_deviation(self, event):
@@ -99,6 +108,10 @@ class TermPeerWorld(PeerWorld):
                 (tid, total, flags) = self.outstanding.pop(0)
                 self.acked[tid] = total
                 self.peer_write(T.enc_ack(flags, tid, total))
+            elif event[1] == 'stray':
+                # an out-of-place message (acknowledgement / refusal of a transfer that does not exist)
+                self.done['stray'] = True
+                self.peer_write(T.enc_ack(3, 99, 2) if self.opts['stray'] == 'ack' else T.enc_refuse(1, 99))
             elif event[1] == 'refuse':
                 self.done['refuse'] = True
                 tid = self.started[-1]
@@ -123,13 +136,15 @@ class TermPeerWorld(PeerWorld):
         return viols, True
 
     def v(self, kind, sig, detail):
-        return Violation(PROP, 'scripted-peer', kind, sig, detail)
+        return Violation(self.prop, 'scripted-peer', kind, sig, detail)
 
     def judge(self):
         out = []
         if self.escaped:
             esc = self.escaped[-1]
             out.append(self.v('escaped-exception', dict(exc=esc[0]), '%s: %s' % (esc[0], esc[2])))
+        if self.malformed is not None:
+            out.append(self.v('undecodable-octets-written', dict(), 'the octets R wrote are not a sequence of RFC 9174 messages: %s' % self.malformed))
         if self.r_term_seen > 1:
             out.append(self.v('second-sess-term', dict(), 'R wrote SESS_TERM %d times' % self.r_term_seen))
         if self.start_after_term:
@@ -147,6 +162,16 @@ class TermPeerWorld(PeerWorld):
         out = []
         if self.enabled_events():
             return out
+        if self.opts['stray'] and not self.r_closed():
+            # own transfers unaffected by the out-of-place message: everything was written intact
+            # and reported once
+            fins = dict((sig[1], sig[3]) for sig in self.signals if sig[0] == 'send_bundle_finished')
+            for (k, hexdata) in enumerate(self.params['queued']):
+                tid = k + 1
+                if self.sent_data.get(tid, b'') != bytes.fromhex(hexdata):
+                    out.append(self.v('own-transfer-corrupted-on-the-wire', dict(), 'transfer %d: wrote %r, queued %s' % (tid, self.sent_data.get(tid), hexdata)))
+                elif fins.get(str(tid)) != 'success':
+                    out.append(self.v('own-transfer-not-reported', dict(), 'transfer %d acknowledged in full, finished signals %r' % (tid, fins)))
         if self.r_closed():
             fins = dict((sig[1], sig[3]) for sig in self.signals if sig[0] == 'send_bundle_finished')
             for (k, res) in enumerate(self.user_results_of_send()):
